@@ -3,6 +3,76 @@
 #include "run.h"
 #include "ops2.h"
 
+
+// independent expectations for the constructors (C13)
+template<class S> static Eigen::Matrix<S,Eigen::Dynamic,Eigen::Dynamic> rot3_expected(const Case& c, int id, size_t k){
+  using M = Eigen::Matrix<S,Eigen::Dynamic,Eigen::Dynamic>; using std::cos; using std::sin;
+  M R = M::Identity(3,3);
+  if(id==0){ S x=s0<S>(c.args[k],0), y=s0<S>(c.args[k],1), z=s0<S>(c.args[k],2), w=s0<S>(c.args[k],3);
+    R << w*w+x*x-y*y-z*z, S(2)*(x*y-w*z), S(2)*(x*z+w*y),  S(2)*(x*y+w*z), w*w-x*x+y*y-z*z, S(2)*(y*z-w*x),  S(2)*(x*z-w*y), S(2)*(y*z+w*x), w*w-x*x-y*y+z*z; }
+  else if(id==1){ S th=s0<S>(c.args[k]); Eigen::Matrix<S,3,1> u=v3<S>(c.args[k+1]); S cth=cos(th), sth=sin(th); M K(3,3); K << S(0),-u(2),u(1), u(2),S(0),-u(0), -u(1),u(0),S(0);
+    R = M(M::Identity(3,3)*cth) + M(K*sth) + M((u*u.transpose())*(S(1)-cth)); }     // Rodrigues
+  else if(id==2){ S r=s0<S>(c.args[k],0), p=s0<S>(c.args[k],1), y=s0<S>(c.args[k],2); M Rx=M::Identity(3,3), Ry=M::Identity(3,3), Rz=M::Identity(3,3);
+    Rx(1,1)=cos(r); Rx(1,2)=-sin(r); Rx(2,1)=sin(r); Rx(2,2)=cos(r);  Ry(0,0)=cos(p); Ry(0,2)=sin(p); Ry(2,0)=-sin(p); Ry(2,2)=cos(p);
+    Rz(0,0)=cos(y); Rz(0,1)=-sin(y); Rz(1,0)=sin(y); Rz(1,1)=cos(y); R = Rz*Ry*Rx; }
+  else if(id==3){ R = m33<S>(c.args[k]); }
+  return R; }
+template<class G> struct Expect {     // default: Rn
+  using S = typename G::Scalar; using M = Eigen::Matrix<S,Eigen::Dynamic,Eigen::Dynamic>;
+  static M rotation_of(const G&){ return M::Identity(G::Dim,G::Dim); }
+  static M rotation(const Case&, int){ return M::Identity(G::Dim,G::Dim); }
+  static M translation_of(const G& r){ return M(r.coeffs()); }
+  static M translation(const Case& c, int){ return M(vec_from<S,typename G::DataType>(c.args[0])); }
+  static G feedback(const G& r){ return G(r.coeffs()); }
+  static void normalize(G&){}
+};
+template<class S_> struct Expect<manif::SO2<S_>> { using G = manif::SO2<S_>; using S = S_; using M = Eigen::Matrix<S,Eigen::Dynamic,Eigen::Dynamic>;
+  static M rotation_of(const G& r){ return M(r.rotation()); }
+  static M rotation(const Case& c, int id){ using std::cos; using std::sin; M R(2,2); S re, im;
+    if(id==0){ re=s0<S>(c.args[0],0); im=s0<S>(c.args[0],1); } else { S th=s0<S>(c.args[0]); re=cos(th); im=sin(th); }
+    R << re,-im, im,re; return R; }
+  static M translation_of(const G&){ return M::Zero(2,1); }
+  static M translation(const Case&, int){ return M::Zero(2,1); }
+  static G feedback(const G& r){ return G(r.angle()); }
+  static void normalize(G& X){ X.normalize(); } };
+template<class S_> struct Expect<manif::SE2<S_>> { using G = manif::SE2<S_>; using S = S_; using M = Eigen::Matrix<S,Eigen::Dynamic,Eigen::Dynamic>;
+  static M rotation_of(const G& r){ return M(r.rotation()); }
+  static M rotation(const Case& c, int id){ using std::cos; using std::sin; M R(2,2); S re, im;
+    if(id==0){ S th=s0<S>(c.args[0],2); re=cos(th); im=sin(th); } else if(id==1){ re=s0<S>(c.args[0],2); im=s0<S>(c.args[0],3); } else { re=s0<S>(c.args[1],0); im=s0<S>(c.args[1],2); }
+    R << re,-im, im,re; return R; }
+  static M translation_of(const G& r){ return M(r.translation()); }
+  static M translation(const Case& c, int){ M t(2,1); t << s0<S>(c.args[0],0), s0<S>(c.args[0],1); return t; }
+  static G feedback(const G& r){ return G(r.x(), r.y(), r.angle()); }
+  static void normalize(G& X){ X.normalize(); } };
+template<class S_> struct Expect<manif::SO3<S_>> { using G = manif::SO3<S_>; using S = S_; using M = Eigen::Matrix<S,Eigen::Dynamic,Eigen::Dynamic>;
+  static M rotation_of(const G& r){ return M(r.rotation()); }
+  static M rotation(const Case& c, int id){ return rot3_expected<S>(c,id,0); }
+  static M translation_of(const G&){ return M::Zero(3,1); }
+  static M translation(const Case&, int){ return M::Zero(3,1); }
+  static G feedback(const G& r){ return G(r.quat()); }
+  static void normalize(G& X){ X.normalize(); } };
+template<class S_> struct Expect<manif::SE3<S_>> { using G = manif::SE3<S_>; using S = S_; using M = Eigen::Matrix<S,Eigen::Dynamic,Eigen::Dynamic>;
+  static M rotation_of(const G& r){ return M(r.rotation()); }
+  static M rotation(const Case& c, int id){ return rot3_expected<S>(c,id,1); }
+  static M translation_of(const G& r){ return M(r.translation()); }
+  static M translation(const Case& c, int){ return M(v3<S>(c.args[0])); }
+  static G feedback(const G& r){ return G(r.translation(), r.quat()); }
+  static void normalize(G& X){ X.normalize(); } };
+template<class S_> struct Expect<manif::SE_2_3<S_>> { using G = manif::SE_2_3<S_>; using S = S_; using M = Eigen::Matrix<S,Eigen::Dynamic,Eigen::Dynamic>;
+  static M rotation_of(const G& r){ return M(r.rotation()); }
+  static M rotation(const Case& c, int id){ return rot3_expected<S>(c,id,1); }
+  static M translation_of(const G& r){ M t(6,1); t << r.translation(), r.linearVelocity(); return t; }
+  static M translation(const Case& c, int){ M t(6,1); t << v3<S>(c.args[0]), v3<S>(c.args.back()); return t; }
+  static G feedback(const G& r){ return G(r.translation(), r.quat(), r.linearVelocity()); }
+  static void normalize(G& X){ X.normalize(); } };
+template<class S_> struct Expect<manif::SGal3<S_>> { using G = manif::SGal3<S_>; using S = S_; using M = Eigen::Matrix<S,Eigen::Dynamic,Eigen::Dynamic>;
+  static M rotation_of(const G& r){ return M(r.rotation()); }
+  static M rotation(const Case& c, int id){ return rot3_expected<S>(c,id,1); }
+  static M translation_of(const G& r){ M t(7,1); t << r.translation(), r.linearVelocity(), r.t(); return t; }
+  static M translation(const Case& c, int){ M t(7,1); t << v3<S>(c.args[0]), v3<S>(c.args[c.args.size()-2]), s0<S>(c.args.back()); return t; }
+  static G feedback(const G& r){ return G(r.translation(), r.quat(), r.linearVelocity(), r.t()); }
+  static void normalize(G& X){ X.normalize(); } };
+
 template<class G> struct Pred2 {
   using S = typename G::Scalar;
   using T = typename G::Tangent;
@@ -164,6 +234,38 @@ template<class G> struct Pred2 {
       { Vec_ q; for(auto& X: pts) q.push_back(g*X); o.mat(avg(q).transform()); o.mat((g*m).transform()); }                                // left translation
       { Vec_ q; for(auto& X: pts) q.push_back(X*g); o.mat(avg(q).transform()); o.mat((m*g).transform()); }                                // right translation
       { Vec_ q(pts.size(), pts[0]); o.mat(avg(q).transform()); o.mat(pts[0].transform()); }                                                 // identical points
+      return true;
+    }
+    if(op=="P13"){   // C13: same case format as the Ctor op (iarg = constructor id, args = the supplied quantities, all valid)
+      int id=std::stoi(c.iarg); G r; if(!CtorRunner<G>::make(c,id,r)) return false;
+      Dyn T_ = r.transform(); const int D = G::Dim;
+      Dyn R = Expect<G>::rotation_of(r);                                    // rotation() (identity for Rn)
+      o.mat(Dyn(R*R.transpose())); o.mat(Dyn(Dyn::Identity(D,D)));       // orthonormal
+      { S det = S(1); if(D==2) det = R(0,0)*R(1,1)-R(0,1)*R(1,0);
+        if(D==3) det = R(0,0)*(R(1,1)*R(2,2)-R(1,2)*R(2,1)) - R(0,1)*(R(1,0)*R(2,2)-R(1,2)*R(2,0)) + R(0,2)*(R(1,0)*R(2,1)-R(1,1)*R(2,0));
+        o.scalar(det); o.scalar(S(1)); }
+      o.mat(R); o.mat(Expect<G>::rotation(c,id));                            // rotation() is the supplied rotation
+      o.mat(Expect<G>::translation_of(r)); o.mat(Expect<G>::translation(c,id));   // translation() is the supplied translation
+      o.mat(Dyn(T_.topLeftCorner(D,D))); o.mat(R);                           // transform() carries rotation() ...
+      { G back(r.coeffs()); o.mat(back.coeffs()); o.mat(r.coeffs()); }       // raw coefficients fed back
+      o.mat(Expect<G>::feedback(r).transform()); o.mat(T_);                  // quat() / angle() + translation fed back reproduce the element
+      { auto f = r.template cast<float>(); auto d = f.template cast<S>(); o.mat(d.transform()); o.mat(T_); }   // cast to float and back
+      return true;
+    }
+    if(op=="P13V"){  // C13 validation: args: unit coefficients, [k], [off len]; the rotation coefficients are scaled by k
+      DG data = vec_from<S,DG>(c.args[0]); S k = ScalarIO<S>::parse(c.args[1][0]); const int off=std::stoi(c.args[2][0]), len=std::stoi(c.args[2][1]);
+      S e = ScalarIO<S>::parse(c.args[3][0]);     // the acceptance threshold of this scalar, supplied by the driver
+      for(int i=0;i<len;i++) data(off+i) = data(off+i)*k;
+      int thrown=0; try{ G X(data); (void)X; } catch(const manif::invalid_argument&){ thrown=1; }
+      S dk = k-S(1); if(dk<S(0)) dk=-dk;
+#ifdef NDEBUG
+      int expect = 0;
+#else
+      int expect = (len>0 && !(dk < e)) ? 1 : 0;
+#endif
+      o.scalar(S(thrown)); o.scalar(S(expect));
+      // normalize() makes any non-degenerate data acceptable
+      { G X; X.coeffs() = data; int t2=0; try{ Expect<G>::normalize(X); G Y(X.coeffs()); (void)Y; } catch(const manif::invalid_argument&){ t2=1; } o.scalar(S(t2)); o.scalar(S(0)); }
       return true;
     }
     return false;
